@@ -125,6 +125,17 @@ TARGETS = [
     ('cardutil/key.py', 'get_zone_master_key', {}, 'str',
      {'fragment': ('until', 'binary_key', 'p1'), 'params': [('key_parts', ('list', 'str'))],
       'lean_name': 'get_zone_master_key_combine'}),
+    # WHOLE functions around the cipher library: the three statements of an ECB call (Cipher(...), .encryptor(),
+    # update + finalize) are ONE call of an external function — a parameter of the translation, which the theorems
+    # instantiate with the Triple DES of Model/Des.lean
+    ('cardutil/key.py', 'calculate_kcv', {'binary_key': 'bytes', 'kvc_length': 'int'}, 'str', {'cipher': True}),
+    ('cardutil/key.py', 'encrypt_key', {'key_to_encrypt': 'str', 'master_key': 'str'}, 'bytes', {'cipher': True}),
+    ('cardutil/key.py', 'get_zone_master_key', {}, ('tuple', 'str', 'str'),
+     {'params': [('key_parts', ('list', 'str'))]}),
+    ('cardutil/key.py', 'get_enc_zone_master_key', {}, ('tuple', 'str', 'str'),
+     {'params': [('master_key', 'str'), ('key_parts', ('list', 'str'))]}),
+    ('cardutil/pinblock.py', 'calculate_pvv', {'pin': 'str', 'pvv_key': 'str', 'key_index': 'int', 'card_number': 'str'},
+     'str', {'cipher': True, 'lean_name': 'calculate_pvv'}),
 ]
 
 # per class: the fields a method may use, and the wrapped file object as a `sink` (its write(e) appends to self_out) or a
@@ -216,8 +227,9 @@ ALL_KNOWN = {}        # every function translated so far in this run, by its TAR
 
 
 class Fn:
-    def __init__(self, name, params, ret, partial, defaults):
+    def __init__(self, name, params, ret, partial, defaults, externs=None):
         self.name, self.params, self.ret, self.partial, self.defaults = name, params, ret, partial, defaults
+        self.externs = externs or []       # (name, spec) of the external functions it takes, in signature order
 
 
 class NeedMonad(Exception):
@@ -257,6 +269,11 @@ class Translator:
                             and st.targets[0].id == attr and isinstance(st.value, ast.Constant):
                         return st.value.value
         raise Untranslatable(f'{cls}.{attr} is not a literal class attribute')
+
+    def imports_from(self, module, name):
+        return any(isinstance(n, ast.ImportFrom) and n.module == module and any(a.name == name and a.asname is None
+                                                                                 for a in n.names)
+                   for n in self.mod.body)
 
     def class_slice(self, cls, attr):
         """a class attribute `NAME = slice(a, b)` with literal bounds: (a, b), else None"""
@@ -883,8 +900,16 @@ class Translator:
                 if t != ('list', 'str'):
                     raise Untranslatable(f'sorted() of {t}')
                 return f'(Rt.sortedStr {c})', t
+            if name in ('hexlify', 'unhexlify') and len(args) == 1 and self.imports_from('binascii', name):
+                # `from binascii import hexlify, unhexlify`: the same functions under their bare names
+                return self.call(ast.copy_location(ast.Call(
+                    func=ast.Attribute(value=ast.Name(id='binascii', ctx=ast.Load()), attr=name, ctx=ast.Load()),
+                    args=list(args), keywords=[]), node), env)
             if name in self.known:
                 fn = self.known[name]
+                if len(args) >= 1 and isinstance(args[-1], ast.Starred) and isinstance(fn.params[-1][1], tuple) \
+                        and fn.params[-1][1][0] == 'list' and len(args) == len(fn.params):
+                    args = list(args[:-1]) + [args[-1].value]         # f(a, *xs) for a callee whose last parameter is *xs
                 if len(args) > len(fn.params):
                     raise Untranslatable('too many arguments')
                 codes = []
@@ -896,7 +921,12 @@ class Translator:
                         codes.append(self.expr(ast.Constant(fn.defaults[pn]), env)[0])
                     else:
                         raise Untranslatable('missing argument')
-                code = f'({fn.name} ' + ' '.join(codes) + ')'
+                # the external functions the callee takes are passed on: they become parameters of the caller as well
+                pre = []
+                for en, spec in fn.externs:
+                    self.extern.setdefault(en, spec)
+                    pre.append(f'ext{en}')
+                code = f'({fn.name} ' + ' '.join(pre + codes) + ')'
                 if fn.partial:
                     return self.hoist(code, fn.ret)
                 return code, fn.ret
@@ -1553,6 +1583,62 @@ class FileParams(ast.NodeTransformer):
         return self.generic_visit(node)
 
 
+CIPHER_SPEC = ([('key', 'bytes'), ('data', 'bytes')], 'bytes', True)
+
+
+def cipher_idiom(body):
+    """the three statements of an ECB call into the cipher library —
+           c = Cipher(<module>.<ALG>(KEY), modes.ECB(), backend=...);  e = c.encryptor() | c.decryptor();
+           ... e.update(DATA) + e.finalize() ...
+    become one call `__cipher_<ALG>_<enc|dec>(KEY, DATA)` of an EXTERNAL function (a parameter of the translation: any
+    function from key and data to bytes-or-exception).  Returns (new body, names of the external functions used)."""
+    out, used, i = [], [], 0
+    while i < len(body):
+        st = body[i]
+        ok = (i + 2 < len(body) + 0 and isinstance(st, ast.Assign) and len(st.targets) == 1 and isinstance(st.targets[0], ast.Name)
+              and isinstance(st.value, ast.Call) and isinstance(st.value.func, ast.Name) and st.value.func.id == 'Cipher'
+              and len(st.value.args) == 2 and isinstance(st.value.args[0], ast.Call)
+              and isinstance(st.value.args[0].func, ast.Attribute) and len(st.value.args[0].args) == 1
+              and isinstance(st.value.args[1], ast.Call) and isinstance(st.value.args[1].func, ast.Attribute)
+              and st.value.args[1].func.attr == 'ECB')
+        if ok and i + 2 < len(body):
+            cname = st.targets[0].id
+            alg = st.value.args[0].func.attr
+            key = st.value.args[0].args[0]
+            st2 = body[i + 1]
+            ok2 = (isinstance(st2, ast.Assign) and len(st2.targets) == 1 and isinstance(st2.targets[0], ast.Name)
+                   and isinstance(st2.value, ast.Call) and isinstance(st2.value.func, ast.Attribute)
+                   and isinstance(st2.value.func.value, ast.Name) and st2.value.func.value.id == cname
+                   and st2.value.func.attr in ('encryptor', 'decryptor') and not st2.value.args)
+            if ok2:
+                ename = st2.targets[0].id
+                fname = f"__cipher_{alg}_{'enc' if st2.value.func.attr == 'encryptor' else 'dec'}"
+
+                class Rw(ast.NodeTransformer):
+                    hit = 0
+
+                    def visit_BinOp(self, node):
+                        l, r = node.left, node.right
+                        if isinstance(node.op, ast.Add) and isinstance(l, ast.Call) and isinstance(l.func, ast.Attribute) \
+                                and isinstance(l.func.value, ast.Name) and l.func.value.id == ename and l.func.attr == 'update' \
+                                and len(l.args) == 1 and isinstance(r, ast.Call) and isinstance(r.func, ast.Attribute) \
+                                and isinstance(r.func.value, ast.Name) and r.func.value.id == ename \
+                                and r.func.attr == 'finalize' and not r.args:
+                            Rw.hit += 1
+                            return ast.copy_location(ast.Call(func=ast.Name(id=fname, ctx=ast.Load()),
+                                                              args=[key, l.args[0]], keywords=[]), node)
+                        return self.generic_visit(node)
+                st3 = Rw().visit(__import__('copy').deepcopy(body[i + 2]))
+                if Rw.hit == 1:
+                    out.append(ast.fix_missing_locations(st3))
+                    used.append(fname)
+                    i += 3
+                    continue
+        out.append(st)
+        i += 1
+    return out, used
+
+
 class ClsReturn(ast.NodeTransformer):
     """in a class method, `return cls(x, ...)` builds the new object from x: rendered as `return x`"""
 
@@ -1598,6 +1684,12 @@ def translate_function(mod_ast, fdef, ptypes, ret, known, cls=None, opts=None):
     body = fdef.body
     if 'fragment' in opts:
         body = fragment_of([st for st in body], opts['fragment'])
+    if opts.get('cipher'):
+        body, used = cipher_idiom(list(body))
+        if not used:
+            raise Untranslatable('no call into the cipher library of the expected shape')
+        opts = dict(opts)
+        opts['extern'] = dict(opts.get('extern', {}), **{u: CIPHER_SPEC for u in used})
     if 'files' in opts:
         src, dst = opts['files']
         body = [FileParams(src, dst).visit(st) for st in __import__('copy').deepcopy(body)]
@@ -1693,7 +1785,7 @@ def translate_function(mod_ast, fdef, ptypes, ret, known, cls=None, opts=None):
             rt = f'(Rt.Signal {rt})'
         rtype = f'Outcome {rt}' if monadic else rt
         text = f'def {lean_name} {sig} : {rtype} :=\n  {code}\n'
-        return text, Fn(lean_name, params, ret, monadic, defaults)
+        return text, Fn(lean_name, params, ret, monadic, defaults, list(reversed(list(extern.items()))))
     raise Untranslatable('could not translate')
 
 
